@@ -37,7 +37,7 @@ def check_disqualified_arm(rep, prog):
     disqualified row records the computed issue set of the pair and never reaches the key material; the other rows do."""
     P = verdict.predicate(prog)
     rows = [('no issues', False, False), ('advisory issues only', True, False), ('disqualifying issues', True, True)]
-    asked_all = []
+    asked_all, truth_all = [], []
     for name, I, F in rows:
         fi, outs, asked = verdict.run_verify(prog, I=I, F=F, V=None)
         rep.saw(fn=fi)
@@ -46,6 +46,9 @@ def check_disqualified_arm(rep, prog):
         for a in asked:
             if a not in asked_all:
                 asked_all.append(a)
+        for a in asked.truth:
+            if a not in truth_all:
+                truth_all.append(a)
         if not F:
             rep.check(bool(crypto), 'C17.4', 'PGPKey.verify', 'row %s: key material not asked' % name,
                       'the failing arm must not run the crypto check; the other arm must', where=fi.where, scenario=name)
@@ -73,6 +76,9 @@ def check_disqualified_arm(rep, prog):
         raise AnalysisError('PGPKey.verify never asks %s of an issue set' % verdict.PREDICATE)
     for a in asked_all:
         check_issue_set(rep, P, prog.method('pgpy.pgp', 'PGPKey', 'verify'), a, None, 'the verdict predicate is asked of')
+    for a in truth_all:
+        if a not in asked_all:
+            check_issue_set(rep, P, prog.method('pgpy.pgp', 'PGPKey', 'verify'), a, None, 'tested for being empty')
 
 
 def check_issue_set(rep, P, fi, text, where, what):
@@ -82,7 +88,8 @@ def check_issue_set(rep, P, fi, text, where, what):
     w = where or fi.where
     hf = P.mem.get('HashFunctionNotCollisionResistant', 0)
     rep.check(not problems, 'C17.5', 'PGPKey.verify', 'issue set %s: %s' % (what, text),
-              'key issues and signature issues must be united with |', where=w, expected='<a> | <b>', found=text)
+              'key issues and signature issues must be united with |' + ('' if not problems else ': ' + '; '.join(problems)), where=w,
+              expected='<check_primitives()> | <check_soundness()>', found=text)
     for k, label in (('soundness', 'check_soundness'), ('primitives', 'check_primitives')):
         rep.check(k in src, 'C17.5', 'PGPKey.verify', 'issue set %s lacks %s: %s' % (what, label, text),
                   'the key conditions must come from check_soundness and check_primitives', where=w, found=text)
